@@ -831,6 +831,20 @@ BUFR_Template *bufr_load_template( const char *filename, BUFR_Tables *mtbls )
       bufr_free_tables( tbls );
       return NULL;
       }
+/*
+ * master tables loaded from the template file are only referenced by the template's own tables:
+ * they are handed over, or they would be released here and leave the template with dangling tables
+ */
+   if ((tbls->master.tableBtype == TYPE_ALLOCATED)&&(tmplt->tables->master.tableB == tbls->master.tableB))
+      {
+      tmplt->tables->master.tableBtype = TYPE_ALLOCATED;
+      tbls->master.tableBtype = TYPE_REFERENCED;
+      }
+   if ((tbls->master.tableDtype == TYPE_ALLOCATED)&&(tmplt->tables->master.tableD == tbls->master.tableD))
+      {
+      tmplt->tables->master.tableDtype = TYPE_ALLOCATED;
+      tbls->master.tableDtype = TYPE_REFERENCED;
+      }
 
    bufr_free_tables( tbls );
 
